@@ -132,6 +132,45 @@ Proof.
 Qed.
 
 (* ---- hashes ---- *)
+Lemma read_many_shrinks {A} (item : bytes -> res (A * bytes)) : consumes item ->
+  forall fuel count i xs r, read_many item fuel count i = Ok (xs, r) -> (length r <= length i)%nat.
+Proof.
+  intros Hc. induction fuel as [|f IH]; intros count i xs r H; cbn [read_many] in H;
+    destruct (count =? 0); try (inversion H; subst; lia); try discriminate.
+  destruct (item i) as [[y s]| |] eqn:E; cbn [bind] in H; try discriminate.
+  destruct (read_many item f (count - 1) s) as [[ys s2]| |] eqn:E2; cbn [bind] in H; try discriminate.
+  inversion H; subst. apply IH in E2. apply Hc in E. lia.
+Qed.
+
+Lemma length_prefixed_consumes {A} (item : bytes -> res (A * bytes)) :
+  consumes item -> consumes (length_prefixed item).
+Proof.
+  intros Hc i x r H. unfold length_prefixed in H.
+  destruct (uleb_dec i) as [[count i1]| |] eqn:E; cbn [bind] in H; try discriminate.
+  apply uleb_dec_rest in E. destruct E as (pre & -> & Hp). rewrite app_length.
+  apply (read_many_shrinks item Hc) in H. lia.
+Qed.
+
+Lemma parse_hashes_consumes : consumes parse_hashes.
+Proof. apply length_prefixed_consumes, change_hash_consumes. Qed.
+
+Lemma parse_have_consumes : consumes parse_have.
+Proof.
+  intros i x r H. unfold parse_have in H.
+  destruct (parse_hashes i) as [[ls i1]| |] eqn:E1; cbn [bind] in H; try discriminate.
+  destruct (length_prefixed_bytes i1) as [[bb i2]| |] eqn:E2; cbn [bind] in H; try discriminate.
+  destruct (parse bb) as [[f y]| |]; cbn [bind] in H; try discriminate.
+  inversion H; subst. apply parse_hashes_consumes in E1. apply lpb_consumes in E2. lia.
+Qed.
+
+(* hence, for the three instances used by the sync codec (hashes, haves, changes), the model's
+   fuel never runs out before the input does: any larger fuel gives the same result *)
+Theorem length_prefixed_fuel_immaterial {A} (item : bytes -> res (A * bytes)) :
+  consumes item -> forall f count i, (length i < f)%nat ->
+  read_many item f count i = read_many item (S (length i)) count i.
+Proof. intros Hc f count i Hf. apply read_many_fuel; [exact Hc|exact Hf|lia]. Qed.
+
+
 Lemma wf_hashesb_parts hs : wf_hashesb hs = true ->
   lenN hs < pow64 /\ (forall h, In h hs -> wf_hashb h = true) /\ hashes_sortedb hs = true.
 Proof.
